@@ -729,9 +729,47 @@ func (x *Exec) bitOr(a, c *smt.Term) *smt.Term {
 	if a.IntV != nil && c.IntV != nil {
 		return x.b.IntBig(new(big.Int).Or(a.IntV, c.IntV))
 	}
+	if a.IntV != nil {
+		a, c = c, a
+	}
+	if c.IntV != nil && c.IntV.Sign() == 0 {
+		return a
+	}
+	// a | 2^k = a + 2^k if bit k of a is clear, else a   (exact for a >= 0)
+	if c.IntV != nil && c.IntV.Sign() > 0 && new(big.Int).And(c.IntV, new(big.Int).Sub(c.IntV, big.NewInt(1))).Sign() == 0 {
+		bit := x.b.App("mod", "Int", x.b.App("div", "Int", a, c), x.b.Int(2))
+		x.note("x | 2^k is modelled exactly for non-negative x")
+		return x.b.Add(a, x.b.Mul(c, x.b.Sub(x.b.Int(1), bit)))
+	}
 	x.declareUF("bitor", []string{"Int", "Int"}, "Int")
-	x.note("bitwise or is uninterpreted")
-	return x.b.App("bitor", "Int", a, c)
+	r := x.b.App("bitor", "Int", a, c)
+	// a | c == a + c when c is a multiple of 2^k and 0 <= a < 2^k (no common bits): a valid fact
+	for _, pr := range [][2]*smt.Term{{a, c}, {c, a}} {
+		if k := multipleOfPow2(pr[1]); k != nil && !r.Bound {
+			x.axiom(x.b.Implies(x.b.And(x.b.Cmp("<=", x.b.Int(0), pr[0]), x.b.Cmp("<", pr[0], x.b.IntBig(k)), x.b.Cmp("<=", x.b.Int(0), pr[1])),
+				x.b.Eq(r, x.b.Add(pr[0], pr[1]))))
+		}
+	}
+	x.note("general bitwise or is uninterpreted except for operands without common bits (low part | multiple of 2^k)")
+	return r
+}
+
+// multipleOfPow2: t is syntactically  u * 2^k  (possibly reduced mod 2^n, n > k); returns 2^k.
+func multipleOfPow2(t *smt.Term) *big.Int {
+	if t.Op == "mod" && len(t.Args) == 2 && t.Args[1].IntV != nil {
+		if k := multipleOfPow2(t.Args[0]); k != nil && new(big.Int).Rem(t.Args[1].IntV, k).Sign() == 0 {
+			return k
+		}
+		return nil
+	}
+	if t.Op == "*" && len(t.Args) == 2 {
+		for _, a := range t.Args {
+			if a.IntV != nil && a.IntV.Sign() > 0 && new(big.Int).And(a.IntV, new(big.Int).Sub(a.IntV, big.NewInt(1))).Sign() == 0 && a.IntV.Cmp(big.NewInt(1)) > 0 {
+				return a.IntV
+			}
+		}
+	}
+	return nil
 }
 
 func isNilConst(v *Val) bool {
